@@ -428,6 +428,11 @@ def run(ctx: Context, rep) -> None:
         "and re-attached child records are fresh merge results (same checks "
         "as C04.dump / C04.fresh / C04.delta)")
     c06.check_who(ctx, rep, "C08.nodestroy")
+    # a kept handle writes where it was opened, whatever the working
+    # directory later is (same rule as C20.reloc's root clause)
+    from sa.rules.c20 import check_root_resolved
+    check_root_resolved(ctx, rep, "C08.root")
+
 
 
 _SM = "src/sedpack/io/shard_file_metadata.py"
